@@ -368,7 +368,7 @@ def _explore(ctx, scale=1):
             steps[rec["name"]] = rec["res"]["steps"]
             traces[rec["name"]] = rec["res"].get("trace") or []
         # sweeps: participant t pre-empted at step n by participant u (who then runs to completion)
-        per = 400 if thorough else 26
+        per = 400 if thorough else 22
         for name, sc in SCENARIOS.items():
             if name == "mix4":
                 continue
@@ -388,7 +388,7 @@ def _explore(ctx, scale=1):
                 tr = traces.get(name) or []
                 dense = [k + 1 for k, (fn, co) in enumerate(tr[t] if t < len(tr) else [])
                          if fn in REMOVAL_FILES or co in REMOVAL_FUNCS]
-                cap = 400 if thorough else 48
+                cap = 400 if thorough else 40
                 if len(dense) > cap:
                     stride = -(-len(dense) // cap)
                     dense = dense[rng.randrange(stride)::stride]
